@@ -18,7 +18,7 @@ RULE = ("case = generated program (fan / wait families) + schedule; distinct = t
 REQUIRED_REACH = ["route_eval", "conservation_eval", "body_entry_eval", "waiter_delivery", "targeted_delivery", "unhandled_expected",
                   "family_fan", "family_wait", "family_syncfan"]
 ASSUMPTIONS = ["collecting / waiting steps are exempt from the exactly-once body-entry count (re-runs are legal); C09/C10 cover them"]
-FAMILIES = [("fan", 3), ("wait", 2), ("waitsink", 1), ("syncfan", 1)]
+FAMILIES = [("fan", 3), ("wait", 2), ("waitsink", 1), ("syncfan", 1), ("selfwait", 1)]
 
 
 def plan(tier, seed):
